@@ -17,13 +17,20 @@
    (abstracted to the bit pattern); running the meta-queries through the engine model Exec.v/Sem.v (the
    rows are the resolver compositions those queries denote; the real engine runs them in the tie).
 
-   FULL STATEMENT for the `implementer` edge as DOCUMENTED in schema.graphql ("Subtypes of this vertex
-   type.  If this is not an interface type, this edge is guaranteed to be empty."):
-       forall s, wf_schema s -> answers (q_implementer s) (spec_implementer_documented s)
-   is FALSE (defect F18, class K-implementer-includes-self): `Schema::subtypes` includes the type itself.
-   Refuted by C20_intro_implementer_refuted; what holds is C20_intro_implementer_exact (the actual
-   relation) and C20_implementer_actual_vs_documented (the difference is exactly the self rows).
-   Second finding (class K-hint-duplicate-names): under a `one_of` hint the enumeration performs one lookup
+   The `implementer` edge as DOCUMENTED in schema.graphql ("Subtypes of this vertex type.  If this is not
+   an interface type, this edge is guaranteed to be empty."):
+       forall d, valid_schema d -> ~ Known d ->
+         answers (q_implementer (schema_of_doc d)) (spec_implementer_documented (schema_of_doc d))
+   HOLDS (C20_intro_implementer_valid, and inside C20_introspection_exact).  It used to be false (defect
+   F18: `Schema::subtypes` includes the type itself, so every type was its own implementer); /repo commit
+   00e79dd filters the own name out and the model follows.  For `wf_schema s` the relation the code computes
+   is characterised exactly (C20_intro_implementer_exact: the OTHER types listing the type in their
+   `implements`), never contains a self row (C20_implementer_excludes_self, any s), differs from the
+   documented one only by the self row of an interface listing itself (C20_implementer_actual_vs_documented)
+   and equals it when no type lists itself (C20_implementer_actual_eq_documented), which validity
+   guarantees through "no implementation cycles" (C20_valid_no_self_impl).
+   C20_implementer_regression replays the former witness of F18.
+   Finding (class K-hint-duplicate-names): under a `one_of` hint the enumeration performs one lookup
    per ELEMENT of the list, so a repeated name repeats the vertex type (C20_hinted_multiple,
    C20_hinted_duplicates_refuted); as SETS the hinted and the filtered enumerations agree
    (C20_hinted_iter_equiv). *)
@@ -42,7 +49,7 @@ Theorem C20_introspection_exact : forall d, valid_schema d -> ~ Known d ->
   let s := schema_of_doc d in
   answers (q_types s) (spec_types s) /\
   answers (q_implements s) (spec_implements s) /\
-  answers (q_implementer s) (spec_implementer_actual s) /\
+  answers (q_implementer s) (spec_implementer_documented s) /\
   answers (q_properties s) (spec_properties s) /\
   answers (q_edges s) (spec_edges s) /\
   answers (q_params s) (spec_params s) /\
@@ -127,35 +134,62 @@ Theorem C20_intro_schema_entrypoints_exact : forall s, wf_schema s -> answers (q
 Proof. exact intro_schema_entrypoints_exact. Qed.
 Print Assumptions C20_intro_schema_entrypoints_exact.
 
-(* ---------- implementer (F18) ---------- *)
-(* what the code does: the implementers AND the type itself *)
+(* ---------- implementer (F18, repaired by /repo 00e79dd) ---------- *)
+(* what the code does: the types other than the type itself that list it in their `implements` *)
 Theorem C20_intro_implementer_exact : forall s, wf_schema s -> answers (q_implementer s) (spec_implementer_actual s).
 Proof. exact intro_implementer_exact. Qed.
 Print Assumptions C20_intro_implementer_exact.
-Theorem C20_implementer_includes_self : forall s t, In t (visible_types s) ->
-  In [Str (t_name t); Str (t_name t)] (spec_implementer_actual s).
-Proof. exact implementer_includes_self. Qed.
-Print Assumptions C20_implementer_includes_self.
-(* exact difference from the documentation: the self rows, nothing else *)
-Theorem C20_implementer_actual_vs_documented : forall s, wf_schema s -> forall n m,
+Theorem C20_spec_implementer_actual_reading : forall s n m,
   In [Str n; Str m] (spec_implementer_actual s) <->
-  In [Str n; Str m] (spec_implementer_documented s) \/ (m = n /\ exists t, In t (visible_types s) /\ t_name t = n).
+  exists t u, In t (visible_types s) /\ In u (sc_types s) /\ t_name t = n /\ t_name u = m /\
+              m <> n /\ In n (t_impl u).
+Proof. exact spec_implementer_actual_iff. Qed.
+Print Assumptions C20_spec_implementer_actual_reading.
+Theorem C20_spec_implementer_documented_reading : forall s n m,
+  In [Str n; Str m] (spec_implementer_documented s) <->
+  exists t u, In t (visible_types s) /\ In u (sc_types s) /\ t_name t = n /\ t_name u = m /\
+              is_interface t = true /\ In n (t_impl u).
+Proof. exact spec_implementer_documented_iff. Qed.
+Print Assumptions C20_spec_implementer_documented_reading.
+(* no type is its own implementer, for ANY schema *)
+Theorem C20_implementer_excludes_self : forall s n, ~ In [Str n; Str n] (spec_implementer_actual s).
+Proof. exact implementer_excludes_self. Qed.
+Print Assumptions C20_implementer_excludes_self.
+(* exact difference from the documentation on a well-formed schema: the self row of an interface that
+   lists itself in its `implements`, nothing else *)
+Theorem C20_implementer_actual_vs_documented : forall s, wf_schema s -> forall n m,
+  In [Str n; Str m] (spec_implementer_documented s) <->
+  In [Str n; Str m] (spec_implementer_actual s) \/
+  (m = n /\ exists t, In t (visible_types s) /\ t_name t = n /\ In n (t_impl t)).
 Proof. exact implementer_actual_vs_documented. Qed.
 Print Assumptions C20_implementer_actual_vs_documented.
-Theorem C20_intro_implementer_refuted :
-  exists d, valid_schema d /\ ~ Known d /\
-    exists rows, q_implementer (schema_of_doc d) = Ok rows /\
-      ~ (forall r, In r rows <-> In r (spec_implementer_documented (schema_of_doc d))).
-Proof. exact intro_implementer_refuted. Qed.
-Print Assumptions C20_intro_implementer_refuted.
-(* the witness: Vowel is an OBJECT type and is returned as its own implementer *)
-Theorem C20_implementer_witness :
-  exists rows, q_implementer wit = Ok rows /\
-               In [Str "Vowel"; Str "Vowel"] rows /\
-               ~ In [Str "Vowel"; Str "Vowel"] (spec_implementer_documented wit) /\
-               (exists t, sget wit "Vowel" = Some t /\ is_interface t = false).
-Proof. exact implementer_documented_refuted. Qed.
-Print Assumptions C20_implementer_witness.
+(* ... hence none when no type lists itself: the code's relation IS the documented one *)
+Theorem C20_implementer_actual_eq_documented : forall s, wf_schema s -> no_self_impl s ->
+  spec_implementer_actual s = spec_implementer_documented s.
+Proof. exact implementer_actual_eq_documented. Qed.
+Print Assumptions C20_implementer_actual_eq_documented.
+Theorem C20_intro_implementer_documented : forall s, wf_schema s -> no_self_impl s ->
+  answers (q_implementer s) (spec_implementer_documented s).
+Proof. exact intro_implementer_documented. Qed.
+Print Assumptions C20_intro_implementer_documented.
+(* validity excludes self-implementation (no implementation cycles) ... *)
+Theorem C20_valid_no_self_impl : forall d, valid_schema d -> no_self_impl (schema_of_doc d).
+Proof. exact valid_no_self_impl. Qed.
+Print Assumptions C20_valid_no_self_impl.
+(* ... so the documented statement holds for every valid schema *)
+Theorem C20_intro_implementer_valid : forall d, valid_schema d -> ~ Known d ->
+  answers (q_implementer (schema_of_doc d)) (spec_implementer_documented (schema_of_doc d)) /\
+  spec_implementer_actual (schema_of_doc d) = spec_implementer_documented (schema_of_doc d).
+Proof. exact intro_implementer_valid. Qed.
+Print Assumptions C20_intro_implementer_valid.
+(* regression of the former F18 witness: Vowel is an OBJECT type and is no longer its own implementer *)
+Example C20_implementer_regression :
+  q_implementer wit = Ok [[Str "Letter"; Str "Vowel"]] /\
+  ~ In [Str "Vowel"; Str "Vowel"] [[Str "Letter"; Str "Vowel"]] /\
+  spec_implementer_documented wit = [[Str "Letter"; Str "Vowel"]] /\
+  (exists t, sget wit "Vowel" = Some t /\ is_interface t = false).
+Proof. exact implementer_regression. Qed.
+Print Assumptions C20_implementer_regression.
 
 (* ---------- the `name` hint of the VertexType enumeration ---------- *)
 (* as sets, the enumeration under any hint = the full enumeration filtered by what the hint denotes *)
